@@ -1,10 +1,125 @@
-(* C10 — property theorems only (see PathDecSpec.v for the C++17 model, PathDecModel.v for the
-   model of /repo/src/path.c). *)
+(* C10 — Path decomposition and queries follow the C++17 std::filesystem::path model.
+   Property theorems only.  PathDecSpec.v is the C++17 model (written from the standard, validated
+   against libstdc++ by the check); PathDecModel.v follows /repo/src/path.c (POSIX branch) as index
+   scans over a bounds-checked accessor, so a call returns `Ok` only if it read nothing outside the
+   NUL-terminated input and every loop stopped.  All theorems are for ALL strings s : list Z. *)
 From Coq Require Import ZArith List Bool.
-From Zix Require Import PathDecSpec PathDecModel.
+From Zix Require Import PathDecSpec PathDecModel PathDecProofs.
 Import ListNotations.
 Local Open Scope Z_scope.
 
+(* -- no byte outside the NUL-terminated input is read (no Oob), every loop terminates (no NoFuel):
+      each of the 8 decomposition calls and of the 10 queries (on a string and on NULL) returns Ok *)
+Theorem path_reads_in_bounds : forall s,
+  (forall x, In x (zix_views s) -> exists v, x = Ok v) /\
+  (forall x, In x (zix_query_calls (Some s)) -> exists b, x = Ok b) /\
+  (forall x, In x (zix_query_calls None) -> exists b, x = Ok b).
+Proof. exact L_reads_in_bounds. Qed.
+Print Assumptions path_reads_in_bounds.
+
+(* -- identical text for names and relative path *)
 Theorem root_name_eq : forall s v, zix_path_root_name s = Ok v -> view_text s v = std_root_name s.
-Proof. intros s v [= <-]. reflexivity. Qed.
+Proof. exact L_root_name_eq. Qed.
 Print Assumptions root_name_eq.
+
+Theorem relative_path_eq : forall s v,
+  zix_path_relative_path s = Ok v -> view_text s v = std_relative_path s.
+Proof. exact L_relative_path_eq. Qed.
+Print Assumptions relative_path_eq.
+
+Theorem filename_eq : forall s v, zix_path_filename s = Ok v -> view_text s v = std_filename s.
+Proof. exact L_filename_eq. Qed.
+Print Assumptions filename_eq.
+
+Theorem stem_eq : forall s v, zix_path_stem s = Ok v -> view_text s v = std_stem s.
+Proof. exact L_stem_eq. Qed.
+Print Assumptions stem_eq.
+
+Theorem extension_eq : forall s v, zix_path_extension s = Ok v -> view_text s v = std_extension s.
+Proof. exact L_extension_eq. Qed.
+Print Assumptions extension_eq.
+
+(* -- the same path (std operator==: same root-directory flag, same elements) for root and parent *)
+Theorem root_directory_equiv : forall s v,
+  zix_path_root_directory s = Ok v -> path_equiv (view_text s v) (std_root_directory s).
+Proof. exact L_root_directory_equiv. Qed.
+Print Assumptions root_directory_equiv.
+
+Theorem root_path_equiv : forall s v,
+  zix_path_root_path s = Ok v -> path_equiv (view_text s v) (std_root_path s).
+Proof. exact L_root_path_equiv. Qed.
+Print Assumptions root_path_equiv.
+
+Theorem parent_path_equiv : forall s v,
+  zix_path_parent_path s = Ok v -> as_path (view_text s v) = std_parent_path s.
+Proof. exact L_parent_path_equiv. Qed.
+Print Assumptions parent_path_equiv.
+
+(* -- the ten queries give the C++17 answers (no_nul: a C string has no NUL byte inside; it is
+      needed only by has_relative_path, which tests `path[root.end] != 0`), NULL = the empty path *)
+Theorem queries_eq : forall s, no_nul s -> zix_queries (Some s) = Ok (std_queries s).
+Proof. exact L_queries_eq. Qed.
+Print Assumptions queries_eq.
+
+Theorem queries_null_eq : zix_queries None = Ok (std_queries []).
+Proof. exact zix_queries_null. Qed.
+Print Assumptions queries_null_eq.
+
+(* -- has_X is true exactly when the view X returns is non-empty *)
+Theorem has_x_iff_nonempty : forall s,
+  (forall b v, zix_path_has_root_name (Some s) = Ok b -> zix_path_root_name s = Ok v ->
+               (b = true <-> view_text s v <> [])) /\
+  (forall b v, zix_path_has_root_directory (Some s) = Ok b -> zix_path_root_directory s = Ok v ->
+               (b = true <-> view_text s v <> [])) /\
+  (forall b v, zix_path_has_root_path (Some s) = Ok b -> zix_path_root_path s = Ok v ->
+               (b = true <-> view_text s v <> [])) /\
+  (forall b v, no_nul s -> zix_path_has_relative_path (Some s) = Ok b -> zix_path_relative_path s = Ok v ->
+               (b = true <-> view_text s v <> [])) /\
+  (forall b v, zix_path_has_parent_path (Some s) = Ok b -> zix_path_parent_path s = Ok v ->
+               (b = true <-> view_text s v <> [])) /\
+  (forall b v, zix_path_has_filename (Some s) = Ok b -> zix_path_filename s = Ok v ->
+               (b = true <-> view_text s v <> [])) /\
+  (forall b v, zix_path_has_stem (Some s) = Ok b -> zix_path_stem s = Ok v ->
+               (b = true <-> view_text s v <> [])) /\
+  (forall b v, zix_path_has_extension (Some s) = Ok b -> zix_path_extension s = Ok v ->
+               (b = true <-> view_text s v <> [])).
+Proof. exact L_has_iff. Qed.
+Print Assumptions has_x_iff_nonempty.
+
+(* -- filename is stem followed by extension *)
+Theorem filename_is_stem_extension : forall s f st ex,
+  zix_path_filename s = Ok f -> zix_path_stem s = Ok st -> zix_path_extension s = Ok ex ->
+  view_text s f = view_text s st ++ view_text s ex.
+Proof. exact L_filename_is_stem_extension. Qed.
+Print Assumptions filename_is_stem_extension.
+
+(* -- every returned view is a slice of the input (root_name is the empty view zix_empty_string()),
+      and every index range computed inside satisfies 0 <= begin <= end <= len *)
+Theorem views_are_slices : forall s v, In (Ok v) (zix_views s) -> view_in_input s v.
+Proof. exact L_views_are_slices. Qed.
+Print Assumptions views_are_slices.
+
+Theorem ranges_in_bounds : forall s r,
+  In (Ok r) [root_path_range (Some s); parent_path_range s; filename_range s; stem_range s;
+             extension_range s] \/
+  (exists n, root_slices (Some s) = Ok (n, r)) ->
+  0 <= rbegin r <= rend r /\ rend r <= slen s.
+Proof. exact L_ranges_in_bounds. Qed.
+Print Assumptions ranges_in_bounds.
+
+(* -- the hypotheses are satisfiable and the statements are not vacuous: a worked string
+      "//a//.b.c" (leading and repeated separators, a leading-dot name with an extension) *)
+Example witness_string :
+  let s := [47; 47; 97; 47; 47; 46; 98; 46; 99] in
+  no_nul s /\
+  zix_path_parent_path s = Ok (InInput 1 2) /\ zix_path_filename s = Ok (InInput 5 4) /\
+  zix_path_stem s = Ok (InInput 5 2) /\ zix_path_extension s = Ok (InInput 7 2) /\
+  std_parent_path s = (true, [[97]]) /\ std_stem s = [46; 98] /\ std_extension s = [46; 99] /\
+  zix_queries (Some s) = Ok [true; false; true; true; true; true; true; true; true; false].
+Proof.
+  cbv zeta. repeat split; try reflexivity. intros [H|[H|[H|[H|[H|[H|[H|[H|[H|[]]]]]]]]]]; discriminate.
+Qed.
+
+(* reading just past the NUL is what the accessor refuses: the bounds theorem is not vacuous *)
+Example accessor_refuses_past_nul : rdr [97; 46] 3 = Oob /\ rdr [97; 46] (-1) = Oob /\ rdr [97; 46] 2 = Ok 0.
+Proof. repeat split. Qed.
